@@ -53,7 +53,7 @@ func (c *C18Case) NTKey() string {
 		seen := map[int]bool{}
 		for _, o := range p {
 			switch o.Op {
-			case "Iterate", "MultIterate", "MinBetweenScalar", "MaxBetweenScalar", "Add", "Lt", "Sum", "Argmax", "MatMul", "Dot", "Materialize", "Slice", "Inner", "Clone":
+			case "Iterate", "MultIterate", "MinBetweenScalar", "MaxBetweenScalar", "Add", "Lt", "Sum", "Argmax", "Argmin", "ArgAll", "Min", "MatMul", "Dot", "Materialize", "Slice", "Inner", "Clone":
 				seen[o.Shared] = true
 			}
 		}
@@ -69,7 +69,7 @@ func (c *C18Case) NTKey() string {
 	return ""
 }
 
-var c18SharedOps = []string{"At", "Slice", "Iterate", "MultIterate", "PrivateNpy", "PrivateSprintBig", "MinBetweenScalar", "MaxBetweenScalar", "Add", "AddShared", "AddScalar", "ScalarSub", "LtScalar", "Lt", "Sum", "Max", "Argmax", "Inner", "MatVecMul", "MatMul", "Dot", "TensorMul", "Clone", "Materialize", "Sprint", "T-safe", "Repeat", "Stack", "Apply", "PrivateUnsafe", "PrivateReturn", "PrivateScalarOther", "PrivateTensorMul"}
+var c18SharedOps = []string{"At", "Slice", "Iterate", "MultIterate", "PrivateNpy", "PrivateSprintBig", "MinBetweenScalar", "MaxBetweenScalar", "Add", "AddShared", "AddScalar", "ScalarSub", "LtScalar", "Lt", "Sum", "Max", "Min", "Argmax", "Argmin", "ArgAll", "PrivateRefused", "PrivateReuse", "PrivateRefused", "Inner", "MatVecMul", "MatMul", "Dot", "TensorMul", "Clone", "Materialize", "Sprint", "T-safe", "Repeat", "Stack", "Apply", "PrivateUnsafe", "PrivateReturn", "PrivateScalarOther", "PrivateTensorMul"}
 
 // runOp performs one operation and returns a digest of what it delivered.
 func c18RunOp(o C18Op, shared []*tensor.Dense, sharedM []Arr, priv **tensor.Dense) (out string) {
@@ -274,6 +274,48 @@ func c18RunOp(o C18Op, shared []*tensor.Dense, sharedM []Arr, priv **tensor.Dens
 		}
 		r, err := tensor.Add(p, p, tensor.UseUnsafe())
 		return dig(r, err)
+	case "Argmin":
+		if len(m.Shape) == 0 {
+			return "-"
+		}
+		return dig(s.Argmin(o.Arg % len(m.Shape)))
+	case "ArgAll":
+		if o.Arg%2 == 0 {
+			return dig(s.Argmax(tensor.AllAxes))
+		}
+		return dig(s.Argmin(tensor.AllAxes))
+	case "Min":
+		if len(m.Shape) == 0 {
+			return "-"
+		}
+		return dig(s.Min(o.Arg % len(m.Shape)))
+	case "PrivateRefused":
+		// a call that is refused (a reuse tensor of the wrong size / element type), on tensors only this goroutine knows
+		a, b2 := fresh([]int{2, 3}, int64(o.Arg%5)), fresh([]int{2, 3}, 3)
+		var r *tensor.Dense
+		if o.Arg%2 == 0 {
+			r = fresh([]int{7}, 1)
+		} else {
+			r = tensor.New(tensor.Of(tensor.Bool), tensor.WithShape(2, 3))
+		}
+		_, err := tensor.Add(a, b2, tensor.WithReuse(r))
+		if err == nil {
+			return "accepted"
+		}
+		return "refused"
+	case "PrivateReuse":
+		a, b2, r := fresh([]int{2, 3}, int64(o.Arg%5)), fresh([]int{2, 3}, int64(o.Arg%3)), fresh([]int{2, 3}, 9)
+		var res tensor.Tensor
+		var err error
+		if o.Arg%2 == 0 {
+			res, err = tensor.Add(a, b2, tensor.WithReuse(r))
+		} else {
+			res, err = tensor.Sub(a, b2, tensor.WithIncr(r))
+		}
+		if err == nil && res != tensor.Tensor(r) {
+			return "result is not the destination"
+		}
+		return dig(r, err) + fmt.Sprint(readAll(a), readAll(b2))
 	case "PrivateReturn":
 		p := fresh([]int{2, 2}, int64(o.Arg%5))
 		v, _ := p.Slice(RS{0, 1, 1})
@@ -467,7 +509,7 @@ func TestC18(t *testing.T) {
 				c.Layouts = append(c.Layouts, genLayoutKind(rt, rapid.SampledFrom([]string{"contig", "lazyT", "sliced", "contig"}).Draw(rt, "lk"), len(shape), fmt.Sprintf("l%d", i)))
 				c.Float = append(c.Float, rapid.IntRange(0, 2).Draw(rt, "float") > 0)
 				// now and then an element type of another size (16-byte and string elements take paths of their own)
-				c.DTs = append(c.DTs, rapid.SampledFrom([]string{"", "", "", "", "complex128", "string", "int8"}).Draw(rt, "dt"))
+				c.DTs = append(c.DTs, rapid.SampledFrom([]string{"", "", "", "", "complex128", "string", "int8", "float32", "float32", "int64", "uint16"}).Draw(rt, "dt"))
 				c.Decoded = append(c.Decoded, rapid.IntRange(0, 3).Draw(rt, "decoded") == 0)
 			}
 			for g := 0; g < ng; g++ {
